@@ -7,9 +7,43 @@ import json
 def sig_of(rej, scn):
     det = rej.get("detail")
     fields = sorted(det[3]) if isinstance(det, list) and len(det) == 4 else []
-    if rej.get("why") == "capabilities":
+    why = rej.get("why")
+    if why == "capabilities":
         return "C12:capabilities:%s" % "+".join(sorted(det or []))
-    return "C12:%s:%s" % (rej.get("why"), "+".join(fields))
+    if why.startswith("graphics-"):
+        return "C12:%s:%s" % (why, det.get("proto") if isinstance(det, dict) else "")
+    if why == "emulator-cells-cut-cluster":
+        # one transport effect, whatever it does to the cell: a cluster delivered to the emulator in two reads
+        return "C12:emulator-cells:cut-cluster"
+    kind = (scn.get("desc") or {}).get("Kind")
+    # the families of this check name themselves; the C01 families keep the plain signature
+    tail = ":" + kind if kind in ("neighbours", "bigframe") else ""
+    return "C12:%s:%s%s" % (why, "+".join(fields), tail)
+
+
+def _last_images(evs):
+    for i in range(len(evs) - 1, -1, -1):
+        if evs[i].get("ev") == "images" and evs[i].get("got"):
+            return i
+    return None
+
+
+def images_lost(evs):
+    """the emulator holds one image fewer than the application drew"""
+    i = _last_images(evs)
+    if i is None:
+        return None
+    evs[i]["got"] = evs[i]["got"][:-1]
+    return evs
+
+
+def images_moved(evs):
+    """the emulator holds the image one column further right than the application drew it"""
+    i = _last_images(evs)
+    if i is None:
+        return None
+    evs[i]["got"][0][1] += 1
+    return evs
 
 
 def main(c):
@@ -19,10 +53,18 @@ def main(c):
         "the emulator implements: sixel (DA1), Unicode-core clustering/width (DECRPM 2027 = permanently set); nothing else is advertised",
         "the host terminal is a capable one (RGB, styled underlines, Unicode core): what the host cannot display is not the emulator's loss",
         "the emulator is not resized under the running application (C05 covers resizes); histories are cut at their first resize",
+        "graphics: the emulator gives its child no pixel geometry (no reply to CSI 14 t, no pixel size in the PTY's window size); the "
+        "pictures are drawn by an application whose tty reports one, as an image encoder needs it; judged: every picture drawn with the "
+        "protocol Vaxis chose is held by the emulator at the cell it was drawn at (not the pixels)",
+        "transport: each write of the application reaches the emulator's parser in reads of at most 4096 bytes; a grapheme cluster "
+        "that straddles the end of a read is a logged fact, and differences at and to the right of such a cluster in its row are "
+        "classified apart (signature C12:emulator-cells:cut-cluster)",
     ]
     if not c.replay:
         # the oracle's own structural sanity (shared with C01)
         c.model_check(specs, "MC_RefTerm.tla", "MC_RefTerm.cfg")
+        # the C12-specific oracle pieces (placement of a cut cluster, classification corner cases)
+        c.model_check(specs, "MC_RoundTrip.tla", "MC_RoundTrip.cfg")
     td = c.drive(drv, "c12", replay=c.replay)
     rejects, _ = c.validate_traces(specs, "RoundTrip_Trace.tla", "RoundTrip_Trace.cfg", td)
     if not c.replay:
@@ -31,6 +73,8 @@ def main(c):
             ("emulator view: application record", selfmut.frame_glyph("emu")),
             ("emulator view: snapshot cell", selfmut.emu_grid),
             ("host view: glyph of cell (0,0)", selfmut.frame_glyph("hframe")),
+            ("graphics: an image the application drew is missing in the emulator", images_lost),
+            ("graphics: the emulator holds the image at another cell", images_moved),
 ])
     idx = c.load_index(td)
     c.count_distinct(idx)
@@ -42,4 +86,8 @@ def main(c):
         rule="scenario = screen size x frame history (the C01 generators: random ops, style chains over attribute-mask pairs and "
              "colour classes, fixed corner cases) run by a real Vaxis whose terminal is the real emulator; after every frame three "
              "views are compared with the application's record: reference terminal fed the same bytes, emulator snapshot, host "
-             "screen after Draw; distinct = distinct descriptor")
+             "screen after Draw; plus: runs of neighbouring cells whose texts have no grapheme cluster boundary between them (13 pairs "
+             "over the UAX #29 joining rules, fixed and random histories), screens whose first frame is longer than one read of the "
+             "emulator's parser (combining sequences, ZWJ sequences, single-code-point content under changing styles, mixed content), "
+             "pictures of few and many colours drawn with the graphics protocol derived from the emulator's replies; "
+             "distinct = distinct descriptor")
